@@ -72,6 +72,7 @@ type reqRun struct {
 	unanswered int32
 	sent       int32
 	maxDelay   int
+	holdMs     int
 }
 
 func (rr *reqRun) script(a *fakecql.Attempt) fakecql.Outcome {
@@ -110,6 +111,9 @@ func (rr *reqRun) script(a *fakecql.Attempt) fakecql.Outcome {
 	out := fakecql.Outcome{Kind: k}
 	if rr.maxDelay > 0 {
 		out.Delay = time.Duration(rr.intn(rr.maxDelay*1000)) * time.Microsecond
+	}
+	if rr.holdMs > 0 {
+		out.Delay += time.Duration(rr.holdMs) * time.Millisecond
 	}
 	return out
 }
@@ -263,11 +267,23 @@ type roundOpts struct {
 	compression string
 	restarts    int
 	addNode     bool
+	override    bool // configure a write-consistency override that applies to every write of the workload
+	stallMs     int  // hold back the answer to one heartbeat per data connection for this long
+	holdMs      int  // hold back every scripted answer for this long (requests pile up on the connection)
 }
 
 func runRound(scs []*reqScenario, nodes, numConns, nclients, workers int, out string, st *reqStats, dropRate float64, salt int64, maxDelay int, ro roundOpts) error {
 	t := tracer.New()
-	e, err := env.Start(env.Options{Nodes: nodes, NumConns: numConns, Hooks: true, Tracer: t, Keyspaces: []string{"ks"}})
+	eo := env.Options{Nodes: nodes, NumConns: numConns, Hooks: true, Tracer: t, Keyspaces: []string{"ks"}}
+	if ro.override {
+		// every request of this driver uses LOCAL_QUORUM: all non-SELECT requests are re-encoded by the proxy
+		eo.Unsupported, eo.Override = []string{"LOCAL_QUORUM", "EACH_QUORUM"}, "QUORUM"
+	}
+	if ro.stallMs > 0 {
+		// heartbeats every 150 ms that give up after 300 ms
+		eo.HeartBeat, eo.ConnectTimeout, eo.Idle = 150*time.Millisecond, 300*time.Millisecond, 60*time.Second
+	}
+	e, err := env.Start(eo)
 	if err != nil {
 		return err
 	}
@@ -293,7 +309,7 @@ func runRound(scs []*reqScenario, nodes, numConns, nclients, workers int, out st
 		time.Sleep(150 * time.Millisecond)
 		t.Emit("Ready", "hosts", e.HostKeys(), "numconns", numConns)
 	}
-	rr := &reqRun{e: e, rnd: newRand(salt), maxDelay: maxDelay}
+	rr := &reqRun{e: e, rnd: newRand(salt), maxDelay: maxDelay, holdMs: ro.holdMs}
 	e.C.Script = rr.script
 	e.C.PrepareScript = func(a *fakecql.Attempt) fakecql.Outcome {
 		if v, ok := rr.prepFail.LoadAndDelete(a.Node.IP); ok {
@@ -327,6 +343,21 @@ func runRound(scs []*reqScenario, nodes, numConns, nclients, workers int, out st
 		t.Emit("Ready", "hosts", e.HostKeys(), "numconns", numConns)
 	}
 	t.Emit("ScenarioStart")
+	if ro.stallMs > 0 {
+		// the next heartbeat of every data connection is answered late: the proxy gives up on it, the answer still arrives
+		var smu sync.Mutex
+		stalled := map[int]bool{}
+		e.C.OptionsDelay = func(cn *fakecql.Conn) time.Duration {
+			smu.Lock()
+			defer smu.Unlock()
+			if cn.Registered || stalled[cn.ID] {
+				return 0
+			}
+			stalled[cn.ID] = true
+			return time.Duration(ro.stallMs) * time.Millisecond
+		}
+		time.Sleep(700 * time.Millisecond) // a heartbeat has been sent and has timed out in the proxy
+	}
 	stopRestarts := make(chan struct{})
 	if ro.restarts > 0 {
 		go func() {
@@ -390,7 +421,7 @@ func runRound(scs []*reqScenario, nodes, numConns, nclients, workers int, out st
 				if err := sl.c.Send(frm, tok, classString(sc.Idem, isExec)+"|"+op+"|"+sc.ID); err != nil {
 					continue
 				}
-				if r := sl.c.WaitStream(sl.stream, from, 5*time.Second); r == nil {
+				if r := sl.c.WaitStream(sl.stream, from, 5*time.Second+3*time.Duration(rr.holdMs)*time.Millisecond); r == nil {
 					atomic.AddInt32(&rr.unanswered, 1)
 					// never reuse the stream of an unanswered request: a late answer must not be
 					// attributed to a new request
@@ -467,6 +498,10 @@ func init() {
 		restarts := fs.Int("restarts", 0, "random node restarts per round (connections dropped, prepared statements forgotten)")
 		addNode := fs.Bool("addnode", false, "a node joins after the proxy connected")
 		kinds := fs.String("kinds", "", "comma separated request kinds for random scenarios (query,execute,batch,graph)")
+		stallMs := fs.Int("stall", 0, "answer one heartbeat per data connection this many ms late")
+		holdMs := fs.Int("hold", 0, "hold back every scripted answer this many ms")
+		noDrops := fs.Bool("nodrops", false, "random scenarios never drop connections")
+		override := fs.Bool("override", false, "configure an unsupported-write-consistency override matching the workload's writes")
 		_ = fs.Parse(args)
 		os.Remove(*out)
 		var scs []*reqScenario
@@ -476,6 +511,15 @@ func init() {
 				"wt_batchlog", "wt_other", "rfail", "wfail", "invalid", "syntax", "drop", "silent_drop", "unprepared"}
 			for i := 0; i < *okBias*4; i++ {
 				alpha = append(alpha, "ok")
+			}
+			if *noDrops {
+				var a2 []string
+				for _, x := range alpha {
+					if x != "drop" && x != "silent_drop" {
+						a2 = append(a2, x)
+					}
+				}
+				alpha = a2
 			}
 			for i := 0; i < *random; i++ {
 				sc := &reqScenario{ID: fmt.Sprintf("rnd%d", i), Idem: rnd.Intn(2) == 0}
@@ -509,7 +553,7 @@ func init() {
 				j = len(scs)
 			}
 			if err := runRound(scs[i:j], *nodes, *numConns, *nclients, *workers, *out, st, *dropRate, int64(k), *maxDelay,
-				roundOpts{compression: *compression, restarts: *restarts, addNode: *addNode}); err != nil {
+				roundOpts{compression: *compression, restarts: *restarts, addNode: *addNode, stallMs: *stallMs, holdMs: *holdMs, override: *override}); err != nil {
 				return err
 			}
 		}
